@@ -461,7 +461,7 @@ class Exes:
         self.sp, self.iso, self.model = sp, iso, model
 
 
-def observe_sp(ctx, exes, cases, trace=True):
+def observe_sp(ctx, exes, cases, trace=True, only=None):
     """runs every case in both builds x THREADS (+ one traced single-thread run).  Returns per case
     {(build, threads): result dict}"""
     per_case = [dict() for _ in cases]
@@ -470,6 +470,8 @@ def observe_sp(ctx, exes, cases, trace=True):
         lines, keys = [], []
         # grouped by thread count: libgomp rebuilds its team whenever the count changes (slow under ASan)
         for t in THREADS:
+            if only is not None and (b, t) not in only:
+                continue
             for ci, c in enumerate(cases):
                 lines.append(sp_line(c, t, 0))
                 keys.append((ci, (b, t)))
@@ -477,7 +479,8 @@ def observe_sp(ctx, exes, cases, trace=True):
             if trace and c.get("tiefree"):
                 lines.append(sp_line(c, 1, 1))
                 keys.append((ci, (b, "trace")))
-        jobs.append((b, lines, keys))
+        if lines:
+            jobs.append((b, lines, keys))
     with ThreadPoolExecutor(max_workers=2) as pool:
         outs = list(pool.map(lambda j: run_harness(ctx, exes.sp[j[0]], j[1]), jobs))
     for (b, lines, keys), res in zip(jobs, outs):
@@ -557,7 +560,9 @@ def evaluate_sp(ctx, exes, cases, stats, shrink=True):
             why = {"crash": "the real routine aborts / hangs (build %s, threads %s): %s",
                    "exception": "the real routine throws (build %s, threads %s): %s",
                    "garbage": "unusable output (build %s, threads %s): %s"}[kind] % (key[0], key[1], str(text)[:500])
-            cc = shrink_sp(ctx, exes, c, lambda x: sp_fails(ctx, exes, x, crash_only=True)) if shrink else c
+            cc = c
+            if shrink and len(ctx._violations) < 2:
+                cc = shrink_sp(ctx, exes, c, lambda x: sp_fails(ctx, exes, x, crash_only=True, only=[key]))
             ctx.violation(strip(cc), why)
         for sig, key in entry["distinct"].items():
             full, land, prob = entry["configs"][key]
@@ -571,7 +576,9 @@ def evaluate_sp(ctx, exes, cases, stats, shrink=True):
                        "matrix: %s%s" % ("first" if (prob or not ok_full) else "landmark",
                                          ", ".join("%s/%s threads" % k for k in which), detail,
                                          ("; clauses broken: " + "; ".join(broken)) if broken else ""))
-                cc = shrink_sp(ctx, exes, c, lambda x: sp_fails(ctx, exes, x)) if shrink else c
+                cc = c
+                if shrink and len(ctx._violations) < 2:
+                    cc = shrink_sp(ctx, exes, c, lambda x: sp_fails(ctx, exes, x, only=which[:1]))
                 ctx.violation(strip(cc), why)
         if len(entry["distinct"]) > 1 and not ctx.has_violation():
             ctx.violation(strip(c), "result depends on the heap back-end or the thread count: %s" % (
@@ -626,9 +633,10 @@ def strip(case):
     return {k: v for k, v in case.items() if not k.startswith("_")}
 
 
-def sp_fails(ctx, exes, case, crash_only=False):
-    """does the implementation still fail the extracted spec on this (shrunk) case?"""
-    obs = observe_sp(ctx, exes, [case], trace=False)[0]
+def sp_fails(ctx, exes, case, crash_only=False, only=None):
+    """does the implementation still fail the extracted spec on this (shrunk) case?  `only` restricts the
+    configurations (build, threads) that are run"""
+    obs = observe_sp(ctx, exes, [case], trace=False, only=only)[0]
     N, nl, s = case["N"], len(case["lm"]), case.get("scale", 0)
     mats = []
     for key, r in obs.items():
